@@ -541,10 +541,10 @@ minus the scheme stem** (the fingerprint has no scheme), given the round trip of
 errors of `fingerprint_url` are errors of the variant -/
 theorem stems_agree_fp_of_reparse (sp : Str → Option (Str × Str)) (split5 : Str → Option Parts)
     (E : Env) (sa sfx : Bool) (url : Str) (t : Split) (s : Str)
-    (ht : fingerprintUrlSplit E sfx url = .ok t)
+    (ht : fingerprintUrlSplit E sfx url = .ok (.inr t))
     (hs : fingerprintUrl E sfx url = .ok s)
     (hr : ReparseOk split5 s t) :
-    fingerprintedLruStems sp E sa sfx url = .ok (stemsOfSplit sp sa t) ∧
+    fingerprintedLruStems sp E sa sfx url = .ok (some (stemsOfSplit sp sa t)) ∧
     (lruStemsOfUrl sp split5 sa s).map (minusScheme t) = some (stemsOfSplit sp sa t) := by
   refine ⟨?_, stems_of_reparse sp split5 sa s t hr⟩
   simp only [fingerprintedLruStems, ht]
